@@ -59,7 +59,7 @@ func main() {
 '''
 
 
-def predict(cases, rundir, label, chunk=60):
+def predict(cases, rundir, label, chunk=60, cfg="machine.cfg"):
     """cases: list of (id, case). returns {id: (lines, endmarker)} ; ids TLC could not interpret are absent"""
     progs = []
     for cid, case in cases:
@@ -79,7 +79,7 @@ def predict(cases, rundir, label, chunk=60):
             for m in chunk_progs:
                 f.write(json.dumps(m) + "\n")
         try:
-            res = C.tlc(SPEC, "GoMachine", "machine.cfg", rundir, timeout=1200, copy_extra=[path], java_opts="-Xss512m")
+            res = C.tlc(SPEC, "GoMachine", cfg, rundir, timeout=1200, copy_extra=[path], java_opts="-Xss512m")
         except C.Undecided as e:
             if len(chunk_progs) == 1:
                 C.log("GoMachine cannot interpret case %s: %s" % (chunk_progs[0]["id"], str(e)[-300:].replace("\n", " ")))
@@ -264,6 +264,8 @@ def run_cases(chk, prop, profile, ncases, per_bundle, configs, sd, label, split_
                 for ft in case["features"]:
                     feats[ft] = feats.get(ft, 0) + 1
                 kname = ("fixed:" + fixed_name[cid]) if cid in fixed_name else "seed%d:case%d" % (sd, cid)
+                if cid in fixed_name and opt == "O0" and not tags:
+                    chk.cov.setdefault("fixed_case_outputs", {})[fixed_name[cid]] = got.get(cid)
                 if cid in died:
                     chk.reject("%s:%s:%s:died" % (prop, profile, kname),
                                "llgo-compiled case killed or hung the process (%s): %s" % (died[cid][0], died[cid][1][-300:]),
